@@ -197,6 +197,8 @@ def write_replay(prop: str, payload: dict) -> Path:
 
 def write_evidence(prop: str, tier: str, seed: int, level: str, coverage: dict, wall_s: float, violations: int,
                    assumptions: list) -> None:
+    if REPO != Path('/repo'):
+        return          # a run against a scratch copy (seeded change, benign change) is not evidence
     d = VERIF / 'evidence'
     d.mkdir(exist_ok=True)
     ev = {'property_id': prop, 'tier': tier, 'seed': seed, 'level': level, 'coverage': coverage,
